@@ -54,13 +54,14 @@ def gen_problem(rng, t):
         p.add_node(0.25, 0.25, cond=len(p.circprops) - 1)
         feats.append("floating-near-fixed")
     p.features = feats
-    # axisymmetric problems: every third one has an EXTERNAL (Kelvin-transformed) region; decided by the assembly tie, skipped by the SI oracle
+    # axisymmetric problems: every third one has an EXTERNAL (Kelvin-transformed) region; decided by the assembly tie and by the SI oracle (fem_oracle.Mesh.kelvin)
     p.has_ext = False
-    if p.ptype == "axi" and len(p.labels) > 1 and rng.random() < 0.34:
+    if p.ptype == "axi" and len(p.labels) > 1 and rng.random() < 0.5:
         W = max(n["x"] for n in p.nodes)
-        p.ext = (rng.choice([0.0, 1.5]), rng.choice([2.0 * W, 20.0]), rng.choice([W, 8.0]))
+        p.ext = (rng.choice([1.5, -0.75, 0.0, 3.0]), rng.choice([2.0 * W, 20.0]), rng.choice([W, 8.0]))
         rng.choice(p.labels[1:])["ext"] = 1
         p.has_ext = True
+    p.src_on_fixed = gen.point_source_on_constrained(p, rng)
     return p
 
 
@@ -244,7 +245,8 @@ def main(argv):
             stats["nodes"] += len(sol["nodes"])
             if getattr(p, "has_ext", False):
                 stats["external_region_problems"] = stats.get("external_region_problems", 0) + 1
-                continue
+            if getattr(p, "src_on_fixed", False):
+                stats["point_source_on_constrained_node"] = stats.get("point_source_on_constrained_node", 0) + 1
             mesh = fem_oracle.Mesh(p, sol)
             T = np.array([v[0] for v in mesh.vals])
             K, f, fixed, cond = fem_oracle.heat_system(mesh, T)
